@@ -20,6 +20,9 @@ def main():
         if a.prop in ("C04", "C05"):
             import dmcheck
             return dmcheck.run(a.prop, a.tier)
+        if a.prop == "C18":
+            import blockscheck
+            return blockscheck.run(a.prop, a.tier)
         print("unknown property %s" % a.prop)
         return 2
     except MachineryError as e:
